@@ -180,7 +180,10 @@ fn case_body(idx: usize, case: &Case, rt: &Runtime, iour: bool, sink: &Sink<'_>)
             if c >= wk_total {
                 break;
             }
-            if t0.elapsed() > WAKE_TIMEOUT {
+            // once three steps have waited the full time in vain the alarm stands: later ones wait briefly
+            let limit = if HANGS.load(Ordering::SeqCst) < 3 { WAKE_TIMEOUT } else { Duration::from_millis(1500) };
+            if t0.elapsed() > limit {
+                HANGS.fetch_add(1, Ordering::SeqCst);
                 sink.problem("hang", json!({"kind": "wake_missing", "a": step.a, "leaf": leaf, "drv": case.drv}),
                     format!("step {si} ({}): the model promises {} wake-ups of the task in total, {c} arrived within {WAKE_TIMEOUT:?}", step.a, wk_total), si);
                 break 'steps;
